@@ -92,7 +92,22 @@ class Stub:
 
 
 def make_glob(module, name, log):
+    """stand-in for the global `module.name`; a qualified name `A.B` (protocol >= 4) is the
+    attribute `B` of the global `A`, which is how any valid Python source must refer to it"""
+    if isinstance(name, str) and "." in name:
+        first, *rest = name.split(".")
+        stub = Stub(("glob", norm_module(module), first), log)
+        for part in rest:
+            stub = Stub(("attr", stub.term, part), log)
+        return stub
     return Stub(("glob", norm_module(module), name), log)
+
+
+def norm_import(module, name):
+    """import event: what has to be imported to reach `module.name` is its first component"""
+    if isinstance(name, str) and "." in name:
+        name = name.split(".")[0]
+    return ("import", module, name)
 
 
 def _canon(v, ids, stack):
@@ -149,7 +164,7 @@ class RefVM(_Unpickler):
 
     # ---- inert resolution -------------------------------------------------
     def find_class(self, module, name):
-        self.log.events.append(("import", module, name))
+        self.log.events.append(norm_import(module, name))
         return make_glob(module, name, self.log)
 
     def persistent_load(self, pid):
